@@ -32,12 +32,16 @@ MODELLED_NOT_VERIFIED = [
     "without replacement, rng.choice = seq[script value % len(seq)], exhausted script = 0; class ResolveRng below is that rng) and "
     "compared node for node; with a real random.Random (op resolve_rng_real) it is checked by the oracle only, as are "
     "reroot_at_midpoint and the pointer state of detached nodes (no model)",
+    "C03: after a raise the real tree is compared node for node with the model's `errState` (state as it was; filter_leaf_nodes: "
+    "the bare seed its loop had reached); composed histories (`runE`) continue from that state",
     "C03: the structures a history detaches (removed subtree, what `tree.seed_node = node` leaves behind, a second Tree built "
     "from a clade) are judged by the oracle as arborescences of their own that share no node with the tree; the model carries only the tree",
     "C03: node annotations, comments, labels and Edge objects' own attributes are carried opaquely; add_child of a node that is "
     "still attached elsewhere is outside the documented precondition and outside the history alphabet",
-    "C03: clause (c) (update_bipartitions leaves a fresh encoding) is decided by the from-scratch oracle only; the Lean model carries "
-    "the restructuring done by encode_bipartitions, not the masks (those are C01's)",
+    "C03: clause (c): the Lean state carries no stored encoding; encode_is_fresh / step_update_is_fresh say that the tree an "
+    "update_bipartitions=True operation returns is the output of a final encode_bipartitions call whose encoding (C01's model "
+    "`encode`, imported read-only) equals a fresh non-restructuring encoding of that tree; that the library's STORED masks are "
+    "those is decided by the from-scratch oracle (and is C01's property)",
 ]
 EXPLANATION = ("Theorems (Props/C03.lean, no sorry/axioms): step_wf / history_wf - every operation of the 31-constructor alphabet "
                "(incl. resolve_polytomies under ANY scripted rng: Op.resolveRng, all four step theorems at full strength) "
@@ -58,7 +62,13 @@ EXPLANATION = ("Theorems (Props/C03.lean, no sorry/axioms): step_wf / history_wf
                "suppress_unifurcations branch of remove_child, non-root and root case, end to end), removeChild_error_refines (where "
                "`step` answers ValueError the pointer routine raises before touching a pointer), insertMove_refines (insert_child of "
                "a node that already is a child), repr_is_arborescence (what Repr + no sharing says on the pointers alone: clause (a) "
-               "literally), reseedAt_collapse_refines (reseed_at with suppress_unifurcations=False: chain, then the guarded basal "
+               "literally), CLAUSE (c): encodeStruct_is_C01 / encode_is_fresh / step_update_is_fresh (for 11 operations asked to update "
+               "bipartitions the returned state is the output of a final encode_bipartitions call, whose encoding per C01's model "
+               "equals a fresh non-restructuring encoding of the returned tree; not reroot_at_edge / to_outgroup_position / "
+               "suppress_unifurcations / randomly_reorient), the ERROR CLAUSE: errState_wf (the state a raising operation leaves behind - `errState`, run by the driver "
+               "and compared with the real tree after every raise - has no shared node), errState_unchanged (every operation "
+               "but filter_leaf_nodes raises before its first write), filterLeaves_error_state (filter_leaf_nodes leaves the bare "
+               "seed), historyE_wf / runE_eq_run (histories continued from those states), reseedAt_collapse_refines (reseed_at with suppress_unifurcations=False: chain, then the guarded basal "
                "collapse), reseedChain_refines (the "
                "edge-inversion chain of reseed_at as written represents the tree-level re-seeding before clean-up; "
                "reseedAt_refines_partial = the same for reseed_at with both clean-up flags off); tie (A): gen_* (15 theorems: the "
@@ -66,10 +76,10 @@ EXPLANATION = ("Theorems (Props/C03.lean, no sorry/axioms): step_wf / history_wf
                "dropLeavesFix_fixpoint, filterLoop_fixpoint, pruneUp_fuel_suffices (fuel of every bounded loop suffices). Not "
                "proved, only modelled and compared with the code every run: the pointer-level suppress_unifurcations loop and the "
                "leaf-target clean-up after the inversion chain (so reseedAt_refines_partial / reseedAt_collapse_refines stop at "
-               "suppress_unifurcations=False); the error clause in general (the model has no "
-               "partially mutated states: judged by the oracle after every raise); clause (c) (oracle only); reroot_at_midpoint and "
+               "suppress_unifurcations=False); pointer-level refinement of filter_leaf_nodes' raising "
+               "path (its partially mutated state is modelled at tree level only); that the library's stored masks are the fresh ones (oracle; C01's property); reroot_at_midpoint and "
                "resolve_polytomies with a real random.Random (oracle only). The driver runs `step` per "
-               "operation and `run` on whole histories without node-creating operations.")
+               "operation and `runE` on whole histories without node-creating operations.")
 
 DOC_ERRORS = ("ValueError", "TypeError", "SeedNodeDeletionException")
 FLAG_OPS_UB = {"reseed", "rerootnode", "rerootedge", "outgroup", "suppress", "collapseunweighted", "resolve", "resolve_rng",
@@ -861,7 +871,8 @@ def do_step(ctx, world, op, hist, pending, single_check=True):
         ctx.fail(kind, what, rep)
     if line is not None:
         if raised is not None:
-            impl = "err " + raised + (" but-state-changed" if state_changed else "")
+            # the model says which state a raising operation leaves behind (`errState`): compared node for node
+            impl = "err %s %s %s" % (raised, world.rooted(), after_render if after_render is not None else "ill-formed")
         elif probs:
             impl = "ill-formed"
         else:
@@ -1171,7 +1182,7 @@ def random_history(ctx, dendropy, rng, pending, max_leaves, max_ops):
         op = rng.choice(ops)
         tr = translate(op, snap, orig) if composing and op["op"] not in NOCOMPOSE else None
         ok = do_step(ctx, world, op, hist, pending)
-        if composing and ok and tr is not None and not (op["op"] == "filterleaves" and hist.last_raised):
+        if composing and ok and tr is not None:     # a raising step composes too: the driver continues from `errState` (`runE`)
             segs.append(to_line(_NoTree, tr)[len("step X "):].strip())
             composed_impl = "ok %s %s" % (world.rooted(), tu.render_tree(world.tree, orig_ids))
             nsegs_rep = hist.replay_dict()
